@@ -59,6 +59,12 @@ Proof. intros []; repeat split; reflexivity. Qed.
 Theorem gen_supported_versions_wire_model : gen_supported_versions_wire = Ok supported_versions_wire.
 Proof. reflexivity. Qed.
 
+(* OnlineKey::new: the fresh signer's seed and, as the VERS value of every draft SREP it will sign, the list of
+   supported versions (what make_srep's table entry `vers_wire_bytes => supported_versions_wire` assumed) *)
+Theorem gen_online_key_new_model : forall online_seed,
+  gen_online_key_new online_seed = Ok (online_seed, supported_versions_wire).
+Proof. reflexivity. Qed.
+
 (* the name a version is printed under (Display, the client's verbose output): total, a constant of the
    version alone, and the two supported versions print differently *)
 Theorem gen_version_as_string_names : forall v w,
